@@ -142,3 +142,5 @@ Fixpoint spec_final (m : omap) (steps : list (op * out)) : option omap :=
   end.
 
 End SPEC.
+
+Arguments SOk {V}. Arguments SBad {V}. Arguments SOut {V}.
